@@ -1,15 +1,575 @@
 /-
-  Driver engine stub (Raster): replaced by the real engine; see notes/AGENT_BRIEF.md.
+  Driver engine for C19: compares the implementation's Raster results with the value model and
+  the heap model, and evaluates the property predicates (`ElemMapOK`, `ElemZipOK`, `SameRaster`,
+  shape rejection, copy / move / wrap expectations) on the implementation's own output.
+  Commands: `raster.rs|sr|rr|as|ar|pow|sqrt|eq` (values) and `raster.h.*` (storage sequences).
 -/
 import PopsModel.Driver.Util
+import PopsModel.Model.RasterPred
 namespace Pops.Driver.RasterEng
 open Pops Pops.Driver
 
-structure State where
-  dummy : Unit := ()
-deriving Inhabited
+abbrev VarObs := Option (Nat × Nat × Option (List Int))
 
-def handle (st : State) (_cmd : String) (_inp _obs : List String) : State × String :=
-  (st, "BADLINE")
+structure State where
+  heap : Heap Int := {}
+  n : Nat := 0                    -- number of variables of the pool
+  pre : Obs Int := ⟨[], []⟩       -- last observation of the implementation
+  sync : Bool := false            -- model state follows the implementation
+
+instance : Inhabited State := ⟨{}⟩
+
+/-! ### parsing -/
+
+def op? : String → Option BinOp
+  | "add" => some .add | "sub" => some .sub | "mul" => some .mul | "div" => some .div | _ => none
+
+def rasterI? : List String → Option (Raster Int × List String)
+  | r :: c :: rest => do
+    let r ← parseNat? r; let c ← parseNat? c
+    let (cells, rest') ← takeN? (r * c) rest
+    let cells ← parseInts? cells
+    some (⟨r, c, cells⟩, rest')
+  | _ => none
+
+def rasterD? : List String → Option (Raster Rat × List String)
+  | r :: c :: rest => do
+    let r ← parseNat? r; let c ← parseNat? c
+    let (cells, rest') ← takeN? (r * c) rest
+    let cells ← parseRats? cells
+    some (⟨r, c, cells⟩, rest')
+  | _ => none
+
+def showRat (q : Rat) : String := if q.den = 1 then toString q.num else s!"{q.num}/{q.den}"
+def showRI (a : Raster Int) : String := s!"{a.rows} {a.cols} " ++ " ".intercalate (a.cells.map toString)
+def showRD (a : Raster Rat) : String := s!"{a.rows} {a.cols} " ++ " ".intercalate (a.cells.map showRat)
+
+/-- One element type of the protocol: parser, printer, decidable equality. -/
+structure Ty (α : Type) where
+  parse : List String → Option (Raster α × List String)
+  scalar : String → Option α
+  shw : Raster α → String
+  deq : DecidableEq α
+
+def tyI : Ty Int := ⟨rasterI?, parseInt?, showRI, inferInstance⟩
+def tyD : Ty Rat := ⟨rasterD?, parseRat?, showRD, inferInstance⟩
+
+/-! ### value commands -/
+
+/-- `raster.rs`, `raster.sr`, `raster.pow`, `raster.sqrt`: result `r`, operand re-read as `a'`. -/
+def checkMap {α : Type} (ta : Ty α) (what : String) (spec : α → α) (model : Raster α)
+    (a : Raster α) (obs : List String) : String :=
+  letI := ta.deq
+  match ta.parse obs with
+  | some (r, rest) =>
+    match ta.parse rest with
+    | some (a', []) =>
+      if !(SameRaster a a') then s!"PROPFAIL C19 operands-unchanged {what} operand-after={ta.shw a'}"
+      else if !(ElemMapOK spec a r) then s!"PROPFAIL C19 elementwise {what} expected={ta.shw (a.map spec)}"
+      else if r ≠ model then s!"MISMATCH {what} model={ta.shw model}"
+      else "ok"
+    | _ => "BADLINE"
+  | none => "BADLINE"
+
+/-- `raster.as`: new left operand `a'`, and a copy `k` taken before the call. -/
+def checkAssignScalar {α : Type} (ta : Ty α) (what : String) (spec : α → α) (model : Raster α)
+    (a : Raster α) (obs : List String) : String :=
+  letI := ta.deq
+  match ta.parse obs with
+  | some (a', rest) =>
+    match ta.parse rest with
+    | some (k, []) =>
+      if !(SameRaster a k) then s!"PROPFAIL C19 copy-independent {what} copy-after={ta.shw k}"
+      else if !(ElemMapOK spec a a') then s!"PROPFAIL C19 elementwise {what} expected={ta.shw (a.map spec)}"
+      else if a' ≠ model then s!"MISMATCH {what} model={ta.shw model}"
+      else "ok"
+    | _ => "BADLINE"
+  | none => "BADLINE"
+
+def showExcept {γ : Type} (sh : Raster γ → String) : Except ErrKind (Raster γ) → String
+  | .ok r => "ok " ++ sh r
+  | .error e => errTok e
+
+def isOkWith {γ : Type} [DecidableEq γ] (m : Except ErrKind (Raster γ)) (r : Raster γ) : Bool :=
+  match m with
+  | .ok x => decide (x = r)
+  | .error _ => false
+
+/-- `raster.rr`: `ok r a' b'` or `err:kind a' b'`. -/
+def checkZip {α β γ : Type} (ta : Ty α) (tb : Ty β) (tc : Ty γ) (what : String) (spec : α → β → γ)
+    (model : Except ErrKind (Raster γ)) (a : Raster α) (b : Raster β) (obs : List String) : String :=
+  letI := ta.deq; letI := tb.deq; letI := tc.deq
+  match obs with
+  | [] => "BADLINE"
+  | status :: rest0 =>
+    let res : Option (Option (Raster γ) × List String) :=
+      if status = "ok" then (tc.parse rest0).map fun (r, rest) => (some r, rest)
+      else if status.startsWith "err:" then some (none, rest0) else none
+    match res with
+    | none => "BADLINE"
+    | some (r?, rest) =>
+      match ta.parse rest with
+      | some (a', rest2) =>
+        match tb.parse rest2 with
+        | some (b', []) =>
+          if !(SameRaster a a') || !(SameRaster b b') then
+            s!"PROPFAIL C19 operands-unchanged {what} after={ta.shw a'} | {tb.shw b'}"
+          else if !(sameShape a b) && r?.isSome then s!"PROPFAIL C19 shape-mismatch-not-rejected {what}"
+          else if sameShape a b && r?.isNone then s!"PROPFAIL C19 equal-shapes-rejected {what} {status}"
+          else
+            match r? with
+            | some r =>
+              if !(ElemZipOK spec a b r) then s!"PROPFAIL C19 elementwise {what}"
+              else if !(isOkWith model r) then s!"MISMATCH {what} model={showExcept tc.shw model}"
+              else "ok"
+            | none =>
+              if showExcept tc.shw model ≠ status then s!"MISMATCH {what} model={showExcept tc.shw model}" else "ok"
+        | _ => "BADLINE"
+      | none => "BADLINE"
+
+/-- `raster.ar`: `ok|err:kind a' b' k` (`k` = copy of the left operand taken before). -/
+def checkZipAssign {α β : Type} (ta : Ty α) (tb : Ty β) (what : String) (spec : α → β → α)
+    (model : Except ErrKind (Raster α)) (a : Raster α) (b : Raster β) (obs : List String) : String :=
+  letI := ta.deq; letI := tb.deq
+  match obs with
+  | [] => "BADLINE"
+  | status :: rest =>
+    if !(status = "ok" || status.startsWith "err:") then "BADLINE" else
+    match ta.parse rest with
+    | some (a', rest2) =>
+      match tb.parse rest2 with
+      | some (b', rest3) =>
+        match ta.parse rest3 with
+        | some (k, []) =>
+          let threw := status != "ok"
+          if !(SameRaster b b') then s!"PROPFAIL C19 operands-unchanged {what} right-after={tb.shw b'}"
+          else if !(SameRaster a k) then s!"PROPFAIL C19 copy-independent {what} copy-after={ta.shw k}"
+          else if !(sameShape a b) && !threw then s!"PROPFAIL C19 shape-mismatch-not-rejected {what}"
+          else if sameShape a b && threw then s!"PROPFAIL C19 equal-shapes-rejected {what} {status}"
+          else if threw then
+            if !(SameRaster a a') then s!"PROPFAIL C19 operands-unchanged {what} left-after-rejection={ta.shw a'}"
+            else if showExcept ta.shw model ≠ status then s!"MISMATCH {what} model={showExcept ta.shw model}" else "ok"
+          else if !(ElemZipOK spec a b a') then s!"PROPFAIL C19 elementwise {what}"
+          else if !(isOkWith model a') then s!"MISMATCH {what} model={showExcept ta.shw model}"
+          else "ok"
+        | _ => "BADLINE"
+      | none => "BADLINE"
+    | none => "BADLINE"
+
+def handleValue (cmd : String) (inp obs : List String) : String :=
+  match cmd, inp with
+  | "raster.rs", o :: kind :: rest =>
+    match op? o, kind with
+    | some o, "II" => match rasterI? rest with
+      | some (a, [v]) => match parseInt? v with
+        | some v => checkMap tyI cmd (specRS_II o v) (a.rsII o v) a obs | none => "BADLINE"
+      | _ => "BADLINE"
+    | some o, "ID" => match rasterI? rest with
+      | some (a, [v]) => match parseRat? v with
+        | some v => checkMap tyI cmd (specRS_ID o v) (a.rsID o v) a obs | none => "BADLINE"
+      | _ => "BADLINE"
+    | some o, "DI" => match rasterD? rest with
+      | some (a, [v]) => match parseInt? v with
+        | some v => checkMap tyD cmd (specRS_DI o v) (a.rsDI o v) a obs | none => "BADLINE"
+      | _ => "BADLINE"
+    | some o, "DD" => match rasterD? rest with
+      | some (a, [v]) => match parseRat? v with
+        | some v => checkMap tyD cmd (specRS_DD o v) (a.rsDD o v) a obs | none => "BADLINE"
+      | _ => "BADLINE"
+    | _, _ => "BADLINE"
+  | "raster.as", o :: kind :: rest =>
+    match op? o, kind with
+    | some o, "II" => match rasterI? rest with
+      | some (a, [v]) => match parseInt? v with
+        | some v => checkAssignScalar tyI cmd (specRS_II o v) (a.asII o v) a obs | none => "BADLINE"
+      | _ => "BADLINE"
+    | some o, "ID" => match rasterI? rest with
+      | some (a, [v]) => match parseRat? v with
+        | some v => checkAssignScalar tyI cmd (specRS_ID o v) (a.asID o v) a obs | none => "BADLINE"
+      | _ => "BADLINE"
+    | some o, "DI" => match rasterD? rest with
+      | some (a, [v]) => match parseInt? v with
+        | some v => checkAssignScalar tyD cmd (specRS_DI o v) (a.asDI o v) a obs | none => "BADLINE"
+      | _ => "BADLINE"
+    | some o, "DD" => match rasterD? rest with
+      | some (a, [v]) => match parseRat? v with
+        | some v => checkAssignScalar tyD cmd (specRS_DD o v) (a.asDD o v) a obs | none => "BADLINE"
+      | _ => "BADLINE"
+    | _, _ => "BADLINE"
+  | "raster.sr", o :: kind :: v :: rest =>
+    match op? o, kind with
+    | some o, "II" => match parseInt? v, rasterI? rest with
+      | some v, some (a, []) => checkMap tyI cmd (specSR_II o v) (Raster.srII o v a) a obs | _, _ => "BADLINE"
+    | some o, "ID" => match parseRat? v, rasterI? rest with
+      | some v, some (a, []) => checkMap tyI cmd (specSR_ID o v) (Raster.srID o v a) a obs | _, _ => "BADLINE"
+    | some o, "DI" => match parseInt? v, rasterD? rest with
+      | some v, some (a, []) => checkMap tyD cmd (specSR_DI o v) (Raster.srDI o v a) a obs | _, _ => "BADLINE"
+    | some o, "DD" => match parseRat? v, rasterD? rest with
+      | some v, some (a, []) => checkMap tyD cmd (specSR_DD o v) (Raster.srDD o v a) a obs | _, _ => "BADLINE"
+    | _, _ => "BADLINE"
+  | "raster.rr", o :: kind :: rest =>
+    match op? o, kind with
+    | some o, "II" => match rasterI? rest with
+      | some (a, r2) => match rasterI? r2 with
+        | some (b, []) => checkZip tyI tyI tyI cmd (specRR_II o) (a.rrII o b) a b obs | _ => "BADLINE"
+      | none => "BADLINE"
+    | some o, "ID" => match rasterI? rest with
+      | some (a, r2) => match rasterD? r2 with
+        | some (b, []) => checkZip tyI tyD tyD cmd (specRR_ID o) (a.rrID o b) a b obs | _ => "BADLINE"
+      | none => "BADLINE"
+    | some o, "DI" => match rasterD? rest with
+      | some (a, r2) => match rasterI? r2 with
+        | some (b, []) => checkZip tyD tyI tyD cmd (specRR_DI o) (a.rrDI o b) a b obs | _ => "BADLINE"
+      | none => "BADLINE"
+    | some o, "DD" => match rasterD? rest with
+      | some (a, r2) => match rasterD? r2 with
+        | some (b, []) => checkZip tyD tyD tyD cmd (specRR_DD o) (a.rrDD o b) a b obs | _ => "BADLINE"
+      | none => "BADLINE"
+    | _, _ => "BADLINE"
+  | "raster.ar", o :: kind :: rest =>
+    match op? o, kind with
+    | some o, "II" => match rasterI? rest with
+      | some (a, r2) => match rasterI? r2 with
+        | some (b, []) => checkZipAssign tyI tyI cmd (specRR_II o) (a.arII o b) a b obs | _ => "BADLINE"
+      | none => "BADLINE"
+    | some o, "DI" => match rasterD? rest with
+      | some (a, r2) => match rasterI? r2 with
+        | some (b, []) => checkZipAssign tyD tyI cmd (specRR_DI o) (a.arDI o b) a b obs | _ => "BADLINE"
+      | none => "BADLINE"
+    | some o, "DD" => match rasterD? rest with
+      | some (a, r2) => match rasterD? r2 with
+        | some (b, []) => checkZipAssign tyD tyD cmd (specRR_DD o) (a.arDD o b) a b obs | _ => "BADLINE"
+      | none => "BADLINE"
+    | _, _ => "BADLINE"
+  | "raster.pow", "I" :: rest =>
+    match rasterI? rest with
+    | some (a, [k]) => match parseNat? k with
+      | some k => checkMap tyI cmd (cPowI k) (a.powI k) a obs | none => "BADLINE"
+    | _ => "BADLINE"
+  | "raster.pow", "D" :: rest =>
+    match rasterD? rest with
+    | some (a, [k]) => match parseNat? k with
+      | some k => checkMap tyD cmd (cPowD k) (a.powD k) a obs | none => "BADLINE"
+    | _ => "BADLINE"
+  | "raster.sqrt", "I" :: rest =>
+    match rasterI? rest with
+    | some (a, []) => checkMap tyI cmd cSqrtI a.sqrtI a obs
+    | _ => "BADLINE"
+  | "raster.sqrt", "D" :: rest =>
+    match rasterD? rest with
+    | some (a, []) =>
+      if a.cells.all fun q => (cSqrtD? q).isSome then checkMap tyD cmd cSqrtD a.sqrtD a obs
+      else "BADLINE"     -- the harness feeds squares only
+    | _ => "BADLINE"
+  | _, _ => "BADLINE"
+
+/-- `raster.eq kind a b => <eq><ne> a' b'` -/
+def checkEq {α : Type} (ta : Ty α) (rest obs : List String) : String :=
+  letI := ta.deq
+  match ta.parse rest with
+  | some (a, r2) =>
+    match ta.parse r2 with
+    | some (b, []) =>
+      match obs with
+      | bits :: r3 =>
+        match ta.parse r3 with
+        | some (a', r4) =>
+          match ta.parse r4 with
+          | some (b', []) =>
+            let spec := SameRaster a b
+            if !(SameRaster a a') || !(SameRaster b b') then "PROPFAIL C19 operands-unchanged raster.eq"
+            else if bits ≠ showBits [spec, !spec] then
+              s!"PROPFAIL C19 eq-iff observed={bits} same-shape-and-cells={spec}"
+            else if bits ≠ showBits [a.eqOp b, a.neOp b] then s!"MISMATCH raster.eq model={showBits [a.eqOp b, a.neOp b]}"
+            else "ok"
+          | _ => "BADLINE"
+        | none => "BADLINE"
+      | [] => "BADLINE"
+    | _ => "BADLINE"
+  | none => "BADLINE"
+
+/-! ### storage commands -/
+
+def varToks? : List String → Option (VarObs × List String)
+  | "-" :: rest => some (none, rest)
+  | "n" :: r :: c :: rest => do
+    let r ← parseNat? r; let c ← parseNat? c
+    some (some (r, c, none), rest)
+  | "d" :: rest => do
+    let (a, rest') ← rasterI? rest
+    some (some (a.rows, a.cols, some a.cells), rest')
+  | _ => none
+
+def extToks? : List String → Option (List Int × List String)
+  | "x" :: len :: rest => do
+    let len ← parseNat? len
+    let (cells, rest') ← takeN? len rest
+    let cells ← parseInts? cells
+    some (cells, rest')
+  | _ => none
+
+def varsToks? : Nat → List String → Option (List VarObs × List String)
+  | 0, toks => some ([], toks)
+  | k+1, toks => do
+    let (v, rest) ← varToks? toks
+    let (vs, rest') ← varsToks? k rest
+    some (v :: vs, rest')
+
+def extsToks? : Nat → List String → Option (List (List Int))
+  | 0, [] => some []
+  | 0, _ => none
+  | fuel+1, toks =>
+    if toks.isEmpty then some [] else do
+    let (e, rest) ← extToks? toks
+    let es ← extsToks? fuel rest
+    some (e :: es)
+
+def obs? (n : Nat) (toks : List String) : Option (Obs Int) := do
+  let (vs, rest) ← varsToks? n toks
+  let es ← extsToks? 8 rest
+  some ⟨vs, es⟩
+
+def showVar : VarObs → String
+  | none => "-"
+  | some (r, c, none) => s!"n {r} {c}"
+  | some (r, c, some cells) => s!"d {r} {c} " ++ showInts cells
+
+def showObs (o : Obs Int) : String :=
+  " ".intercalate (o.vars.map showVar) ++ " | " ++ " | ".intercalate (o.exts.map showInts)
+
+def Obs.var (o : Obs Int) (s : Nat) : VarObs := (o.vars[s]?).join
+def Obs.raster (o : Obs Int) (s : Nat) : Option (Raster Int) :=
+  match Obs.var o s with
+  | some (r, c, some cells) => some ⟨r, c, cells⟩
+  | _ => none
+def Obs.setVar (o : Obs Int) (s : Nat) (v : VarObs) : Obs Int := { o with vars := o.vars.set s v }
+
+/-- Caller array the variable points into, according to the model's pointers. -/
+def extOf (h : Heap Int) (s : Nat) : Option Nat :=
+  match h.slots s with
+  | some o => match o.data with
+    | some p => if p < h.nExt then some p else none
+    | none => none
+  | none => none
+
+/-- After the caller array `e` has got contents `cells`, every raster wrapping it shows them. -/
+def refreshWrappers (h : Heap Int) (o : Obs Int) (e : Nat) (cells : List Int) : Obs Int :=
+  { vars := (List.range o.vars.length).map fun u =>
+      match Obs.var o u with
+      | some (r, c, some old) => if extOf h u = some e then some (r, c, some (cells.take (r * c))) else some (r, c, some old)
+      | v => v,
+    exts := o.exts.set e cells }
+
+/-- Expectation after storing `new` into the first cells seen through variable `s`: a wrapper
+    writes through to the caller's array (and to every other wrapper of it); anything else changes
+    only itself. -/
+def expectStore (h : Heap Int) (pre : Obs Int) (s : Nat) (new : List Int) : Obs Int :=
+  match extOf h s with
+  | some e =>
+    let old := (pre.exts[e]?).getD []
+    refreshWrappers h pre e (new ++ old.drop new.length)
+  | none =>
+    match Obs.var pre s with
+    | some (r, c, some old) => Obs.setVar pre s (some (r, c, some (new ++ old.drop new.length)))
+    | _ => pre
+
+/-- Variables and caller arrays in which two observations differ. -/
+def diffObs (a b : Obs Int) : List Nat × List Nat :=
+  ((List.range (max a.vars.length b.vars.length)).filter fun u => Obs.var a u != Obs.var b u,
+   (List.range (max a.exts.length b.exts.length)).filter fun e => a.exts[e]? != b.exts[e]?)
+
+def hop? (cmd : String) (args : List String) : Option (HOp Int) :=
+  match cmd, args.mapM parseInt? with
+  | "raster.h.construct", some [s, r, c, v, _] => some (.construct s.toNat r.toNat c.toNat v)
+  | "raster.h.wrap", some [s, e, r, c] => some (.wrap s.toNat e.toNat r.toNat c.toNat)
+  | "raster.h.copyctor", some [s, t] => some (.copyCtor s.toNat t.toNat)
+  | "raster.h.movector", some [s, t] => some (.moveCtor s.toNat t.toNat)
+  | "raster.h.copyassign", some [s, t] => some (.copyAssign s.toNat t.toNat)
+  | "raster.h.moveassign", some [s, t] => some (.moveAssign s.toNat t.toNat)
+  | "raster.h.write", some [s, r, c, v] => some (.write s.toNat r.toNat c.toNat v)
+  | "raster.h.destroy", some [s] => some (.destroy s.toNat)
+  | "raster.h.extwrite", some [e, i, v] => some (.extWrite e.toNat i.toNat v)
+  | "raster.h.pownew", some [d, a, k] => some (.powNew d.toNat a.toNat (cPowI k.toNat))
+  | "raster.h.sqrtnew", some [d, a] => some (.powNew d.toNat a.toNat cSqrtI)
+  | _, _ =>
+    match cmd, args with
+    | "raster.h.map", [s, fn, v] => do
+      let s ← parseNat? s; let v ← parseInt? v
+      if fn = "fill" then some (.mapInPlace s fun _ => v)
+      else (op? fn).map fun o => .mapInPlace s (cAS_II o v)
+    | "raster.h.zip", [s, t, o] => do
+      let s ← parseNat? s; let t ← parseNat? t; let o ← op? o
+      some (.zipInPlace s t (cAR_II o))
+    | "raster.h.mapnew", [d, a, o, v, side] => do
+      let d ← parseNat? d; let a ← parseNat? a; let o ← op? o; let v ← parseInt? v
+      if side = "rs" then some (.mapNew d a (cRS_II o v))
+      else if side = "sr" then some (.mapNew d a (cSR_II o v)) else none
+    | "raster.h.zipnew", [d, a, b, o] => do
+      let d ← parseNat? d; let a ← parseNat? a; let b ← parseNat? b; let o ← op? o
+      some (.zipNew d a b (cRR_II o))
+    | _, _ => none
+
+/-- The property-level cell function of an arithmetic storage command (operand order as written). -/
+def specOfCmd (cmd : String) (args : List String) : Option (Sum (Int → Int) (Int → Int → Int)) :=
+  match cmd, args with
+  | "raster.h.map", [_, fn, v] => do
+    let v ← parseInt? v
+    if fn = "fill" then some (.inl fun _ => v) else (op? fn).map fun o => .inl (specRS_II o v)
+  | "raster.h.zip", [_, _, o] => (op? o).map fun o => .inr (specRR_II o)
+  | "raster.h.mapnew", [_, _, o, v, side] => do
+    let o ← op? o; let v ← parseInt? v
+    some (.inl (if side = "rs" then specRS_II o v else specSR_II o v))
+  | "raster.h.zipnew", [_, _, _, o] => (op? o).map fun o => .inr (specRR_II o)
+  | "raster.h.pownew", [_, _, k] => (parseNat? k).map fun k => .inl (cPowI k)
+  | "raster.h.sqrtnew", [_, _] => some (.inl cSqrtI)
+  | _, _ => none
+
+/-- Property-level expectation for the observation after `op`, from the observation before it
+    (`none` where the property leaves the outcome open), with the clause it belongs to. -/
+def expectAfter (h : Heap Int) (pre : Obs Int) (op : HOp Int) (spec : Option (Sum (Int → Int) (Int → Int → Int))) :
+    String × Option (Obs Int) × Bool :=      -- (clause, expected observation, expected to throw)
+  match op with
+  | .construct s r c v => ("value-semantics", some (Obs.setVar pre s (some (r, c, some (List.replicate (r * c) v)))), false)
+  | .wrap s e r c => ("wrap-writes-through", some (Obs.setVar pre s (some (r, c, some (((pre.exts[e]?).getD []).take (r * c))))), false)
+  | .copyCtor s t => ("copy-independent", some (Obs.setVar pre s (Obs.var pre t)), false)
+  | .copyAssign s t =>
+    if s = t then ("copy-independent", some pre, false)
+    else if (extOf h s).isSome then ("copy-independent", none, false)   -- assigning to a wrapper: see `relaxed`
+    else ("copy-independent", some (Obs.setVar pre s (Obs.var pre t)), false)
+  | .moveCtor s t | .moveAssign s t =>
+    if s = t then ("move-transfers", some pre, false)
+    else
+      let moved : VarObs := match Obs.var pre t with
+        | some (r, c, _) => some (r, c, none)
+        | none => none
+      ("move-transfers", some (Obs.setVar (Obs.setVar pre s (Obs.var pre t)) t moved), false)
+  | .write s r c v =>
+    match Obs.var pre s with
+    | some (_, cols, some cells) => ("wrap-writes-through", some (expectStore h pre s ((cells.set (r * cols + c) v))), false)
+    | _ => ("wrap-writes-through", none, false)
+  | .destroy s => ("wrap-never-frees", some (Obs.setVar pre s none), false)
+  | .extWrite e i v => ("wrap-writes-through", some (refreshWrappers h pre e (((pre.exts[e]?).getD []).set i v)), false)
+  | .mapInPlace s _ =>
+    match Obs.raster pre s, spec with
+    | some a, some (.inl f) => ("elementwise", some (expectStore h pre s (a.cells.map f)), false)
+    | _, _ => ("elementwise", none, false)
+  | .zipInPlace s t _ =>
+    match Obs.raster pre s, Obs.raster pre t, spec with
+    | some a, some b, some (.inr f) =>
+      if sameShape a b then ("elementwise", some (expectStore h pre s (List.zipWith f a.cells b.cells)), false)
+      else ("shape-mismatch-not-rejected", some pre, true)
+    | _, _, _ => ("elementwise", none, false)
+  | .mapNew d a _ | .powNew d a _ =>
+    match Obs.raster pre a, spec with
+    | some va, some (.inl f) => ("elementwise", some (Obs.setVar pre d (some (va.rows, va.cols, some (va.cells.map f)))), false)
+    | _, _ => ("elementwise", none, false)
+  | .zipNew d a b _ =>
+    match Obs.raster pre a, Obs.raster pre b, spec with
+    | some va, some vb, some (.inr f) =>
+      if sameShape va vb then
+        ("elementwise", some (Obs.setVar pre d (some (va.rows, va.cols, some (List.zipWith f va.cells vb.cells)))), false)
+      else ("shape-mismatch-not-rejected", some pre, true)
+    | _, _, _ => ("elementwise", none, false)
+
+/-- Copy assignment to a raster that wraps caller memory: the property fixes only that the target
+    shows the source's value and that nothing unrelated changes (the header detaches the target
+    from the caller's array; writing through would satisfy the property as well). -/
+def relaxedCopyAssign (h : Heap Int) (pre post : Obs Int) (s t : Nat) : Option String :=
+  let e := extOf h s
+  if Obs.raster post s != Obs.raster pre t then some "copy-differs-from-source"
+  else
+    let bad := (List.range pre.vars.length).filter fun u =>
+      u != s && extOf h u != e && Obs.var post u != Obs.var pre u
+    let badE := (List.range pre.exts.length).filter fun x => some x != e && post.exts[x]? != pre.exts[x]?
+    if bad.isEmpty && badE.isEmpty then none else some s!"unrelated-changed vars={bad} arrays={badE}"
+
+/-- `len cell... len cell...` -/
+def initArrays? : Nat → List String → Option (List (List Int))
+  | _, [] => some []
+  | 0, _ => none
+  | fuel+1, len :: rest => do
+    let len ← parseNat? len
+    let (cells, rest') ← takeN? len rest
+    let cells ← parseInts? cells
+    let tl ← initArrays? fuel rest'
+    some (cells :: tl)
+
+def handleHeap (st : State) (cmd : String) (inp obs : List String) : State × String :=
+  if cmd = "raster.h.init" then
+    match inp with
+    | n :: rest =>
+      match parseNat? n, initArrays? 8 rest with
+      | some n, some exts =>
+        match obs? n obs with
+        | some o =>
+          let h := Heap.init exts
+          let st' : State := { heap := h, n := n, pre := o, sync := true }
+          (st', if h.observe n = o then "ok" else s!"MISMATCH raster.h.init model={showObs (h.observe n)}")
+        | none => ({ st with sync := false }, "BADLINE")
+      | _, _ => ({ st with sync := false }, "BADLINE")
+    | [] => ({ st with sync := false }, "BADLINE")
+  else if !st.sync then (st, "skip")
+  else
+    match hop? cmd inp with
+    | none => ({ st with sync := false }, "BADLINE")
+    | some op =>
+      -- status token of the throwing commands
+      let (threw?, obsToks) : Option Bool × List String :=
+        match op, obs with
+        | .zipInPlace .., "ok" :: rest | .zipNew .., "ok" :: rest => (some false, rest)
+        | .zipInPlace .., tok :: rest | .zipNew .., tok :: rest =>
+          if tok.startsWith "err:" then (some true, rest) else (none, obs)
+        | _, _ => (some false, obs)
+      match threw?, obs? st.n obsToks with
+      | some threw, some post =>
+        let h := st.heap
+        if !(h.inScope op) then ({ st with sync := false }, s!"MISMATCH {cmd} outside-the-model's-caller-contract")
+        else
+          match h.step op with
+          | .error f => ({ st with sync := false }, s!"MISMATCH {cmd} model-fault={repr f}")
+          | .ok h' =>
+            let (clause, expected, expThrow) := expectAfter h st.pre op (specOfCmd cmd inp)
+            let modelObs := h'.observe st.n
+            let st' : State := { st with heap := h', pre := post, sync := post = modelObs }
+            -- 1. property predicates on the implementation's own observations
+            let prop : Option String :=
+              if expThrow && !threw then some s!"shape-mismatch-not-rejected {cmd}"
+              else if !expThrow && threw then some s!"equal-shapes-rejected {cmd}"
+              else
+                match expected with
+                | some e =>
+                  if post = e then none
+                  else
+                    let (dv, de) := diffObs e post
+                    let target : List Nat := match op with
+                      | .mapInPlace s _ | .zipInPlace s _ _ | .mapNew s _ _ | .zipNew s _ _ _ | .powNew s _ _ => [s]
+                      | _ => []
+                    let cl :=
+                      if clause = "elementwise" && !(dv.all fun u => target.contains u) || (clause = "elementwise" && !de.isEmpty && (target.all fun s => (extOf h s).isNone)) then "operands-unchanged"
+                      else if clause = "shape-mismatch-not-rejected" then "operands-unchanged-on-rejection"
+                      else clause
+                    some s!"{cl} {cmd} differs-in vars={dv} arrays={de} expected={showObs e}"
+                | none =>
+                  match op with
+                  | .copyAssign s t => (relaxedCopyAssign h st.pre post s t).map fun d => s!"copy-independent {cmd} {d}"
+                  | _ => none
+            match prop with
+            | some d => ({ st' with sync := false }, "PROPFAIL C19 " ++ d)
+            | none =>
+              -- 2. model against implementation
+              let modelThrew := (h.throws op).isSome
+              if modelThrew != threw then ({ st' with sync := false }, s!"MISMATCH {cmd} model-throws={modelThrew}")
+              else if post ≠ modelObs then ({ st' with sync := false }, s!"MISMATCH {cmd} model={showObs modelObs}")
+              else (st', "ok")
+      | _, _ => ({ st with sync := false }, "BADLINE")
+
+def handle (st : State) (cmd : String) (inp obs : List String) : State × String :=
+  if cmd.startsWith "raster.h." then handleHeap st cmd inp obs
+  else if cmd = "raster.eq" then
+    match inp with
+    | "I" :: rest => (st, checkEq tyI rest obs)
+    | "D" :: rest => (st, checkEq tyD rest obs)
+    | _ => (st, "BADLINE")
+  else (st, handleValue cmd inp obs)
 
 end Pops.Driver.RasterEng
